@@ -5,4 +5,7 @@ cd "$(dirname "$0")"
 export CARGO_NET_OFFLINE=true
 mkdir -p work evidence replays
 cd harness
-cargo build --release --bins 2>&1 | tail -3
+cargo build --release --bins 2>&1 | tail -2
+cargo build --release --bin c14 --features faster-hex 2>&1 | tail -1
+cd rlibdep
+cargo build --target-dir ../target/rlibdep 2>&1 | tail -1
